@@ -221,9 +221,9 @@ func MarshalToFunc[T any](fn func(*jsontext.Encoder, T) error) *Marshalers {
 			xe.Flags.Set(jsonflags.WithinArshalCall | 1)
 			v, _ := reflect.TypeAssert[T](va.castTo(t))
 			prevFloor := xe.Tokens.Floor
-			xe.Tokens.Floor = len(xe.Tokens.Stack) // the function may not close the enclosing object or array
+			xe.Tokens.Floor = len(xe.Tokens.Stack)         // the function may not close the enclosing object or array
+			defer func() { xe.Tokens.Floor = prevFloor }() // also when the user code panics
 			err := fn(enc, v)
-			xe.Tokens.Floor = prevFloor
 			xe.Flags.Set(jsonflags.WithinArshalCall | 0)
 			currDepth, currLength := xe.Tokens.DepthLength()
 			if err == nil && (prevDepth != currDepth || prevLength+1 != currLength) {
@@ -311,9 +311,9 @@ func UnmarshalFromFunc[T any](fn func(*jsontext.Decoder, T) error) *Unmarshalers
 			xd.Flags.Set(jsonflags.WithinArshalCall | 1)
 			v, _ := reflect.TypeAssert[T](va.castTo(t))
 			prevFloor := xd.Tokens.Floor
-			xd.Tokens.Floor = len(xd.Tokens.Stack) // the function may not close the enclosing object or array
+			xd.Tokens.Floor = len(xd.Tokens.Stack)         // the function may not close the enclosing object or array
+			defer func() { xd.Tokens.Floor = prevFloor }() // also when the user code panics
 			err := fn(dec, v)
-			xd.Tokens.Floor = prevFloor
 			xd.Flags.Set(jsonflags.WithinArshalCall | 0)
 			currDepth, currLength := xd.Tokens.DepthLength()
 			if err == nil && (prevDepth != currDepth || prevLength+1 != currLength) {
